@@ -1,4 +1,4 @@
-//! Step-level two-thread schedules on the REAL store stack (C16; bounded stand-in, DESIGN 12.10).
+//! Step-level two-thread schedules on the REAL store stack (C16; bounded stand-in, DESIGN 12.7).
 //!
 //! The stack is   MemcStore -> StepCache(outer) -> [RandomPolicy ->] StepCache(inner) -> MemoryStore(StepTimer)
 //! where StepCache is a pass-through implementation of the public `Cache` trait.  Every call that thread 1 makes
